@@ -69,6 +69,19 @@ func runC12(c *Ctx, idx int) {
 				c.Count("nets.node_list_shuffled", 1)
 			}
 		}
+		if !viaGenesis && r.Intn(4) == 0 {
+			// the caller built the inputs list by slicing the node list
+			s.InAlias = true
+			c.Count("nets.inputs_list_slices_node_list", 1)
+		}
+		if !viaGenesis && r.Intn(4) == 0 {
+			// auxiliary parameters on the neurons: no built-in activation function reads them, every solver computes the same function
+			s.NodeParams = make([][]float64, s.total())
+			for k := range s.NodeParams {
+				s.NodeParams[k] = []float64{pick(r, 0.3, -0.7, 2.0), r.NormFloat64()}
+			}
+			c.Count("nets.neurons_with_aux_params", 1)
+		}
 		c12Net(c, s, in, viaGenesis)
 	}
 }
